@@ -48,7 +48,54 @@ func stagesOf(fn *ast.FuncDecl) map[string]stageInfo {
 }
 
 // zeroLiteralIssue explains why e is not the zero value of its type ("" if it is).
+// unassignedNamedResult: the identifier is a named result of a function (literal) of the residual that nothing assigns, takes the
+// address of or increments: it holds the zero value of its type wherever it is mentioned.
+func unassignedNamedResult(rs *Resid, e ast.Expr) bool {
+	id, ok := unparen(e).(*ast.Ident)
+	if !ok || rs.File == nil {
+		return false
+	}
+	isResult, touched := false, false
+	ast.Inspect(rs.File, func(n ast.Node) bool {
+		switch x := n.(type) {
+		case *ast.FuncType:
+			if x.Results != nil {
+				for _, f := range x.Results.List {
+					for _, nm := range f.Names {
+						if nm.Name == id.Name {
+							isResult = true
+						}
+					}
+				}
+			}
+		case *ast.AssignStmt:
+			for _, l := range x.Lhs {
+				if canon(l) == id.Name {
+					touched = true
+				}
+			}
+		case *ast.IncDecStmt:
+			if canon(x.X) == id.Name {
+				touched = true
+			}
+		case *ast.UnaryExpr:
+			if x.Op == token.AND && canon(x.X) == id.Name {
+				touched = true
+			}
+		case *ast.RangeStmt:
+			if (x.Key != nil && canon(x.Key) == id.Name) || (x.Value != nil && canon(x.Value) == id.Name) {
+				touched = true
+			}
+		}
+		return true
+	})
+	return isResult && !touched
+}
+
 func zeroLiteralIssue(rs *Resid, e ast.Expr) string {
+	if unassignedNamedResult(rs, e) {
+		return ""
+	}
 	if cl, ok := unparen(e).(*ast.CompositeLit); ok && len(cl.Elts) == 0 {
 		switch t := cl.Type.(type) {
 		case *ast.ArrayType:
